@@ -69,4 +69,27 @@ CHECKS = {
                 text='Byte-for-byte comparison of Toc, GithubWiki, MathJax (script line removed) and Pygments renderers with HtmlRenderer under all 8 '
                      'HTML option sets on spec, mutated, generated and random documents that meet each renderer\'s side condition.',
                 note='Side conditions are over-approximated ("[[" / "$" anywhere in the text, any code block token).'),
+    'C11': dict(category='fault_enumeration', design_ref='DESIGN.md section 5, C11',
+                technique='history monitor with fault injection: enumerated and random sequences of renderer sessions, bare parses and parses that raise inside injected custom tokens; every probe compared with a fresh interpreter',
+                text='Histories are sequences of renderer sessions, bare parses, Scheme sessions and injected faults (custom span/block tokens that '
+                     'raise in find / constructor / start / read, at every list position, at top level / in a quote / in a list item, with the '
+                     'exception propagating out of the context or caught inside it). Every render/parse step is a probe whose result must equal '
+                     'the value computed by one fresh interpreter per (document, renderer, options); token lists are checked after every context '
+                     'exit. All single steps, all histories of length <= 3 over a 41-step alphabet and the full fault x probe matrix are '
+                     'enumerated, random histories (3-6 and 200 steps) extend the reach.',
+                note='Probe documents are chosen so that each piece of class-level scratch state and each memoisable helper is consumed in two '
+                     'different contexts. Nested renderer contexts and faults inside render functions are outside the statement.'),
+    'C14': dict(category='exploration', design_ref='DESIGN.md section 5, C14',
+                technique='reference-model monitor: independent spec-derived inertness predicate selects paragraphs whose only correct rendering is the escaped text',
+                text='Paragraphs assembled from a 150-token vocabulary of tricky-but-inert tokens are filtered by an independent predicate (block '
+                     'starts per line, inline triggers per paragraph, the C06 delimiter model) and must come out as exactly their escaped text in '
+                     'one <p>. All single tokens and (thorough) all token pairs are enumerated as first and as continuation lines.',
+                note='The predicate over-rejects on purpose; its clauses cite the spec sections they implement.'),
+    'C16': dict(category='exploration', design_ref='DESIGN.md section 5, C16',
+                technique='reference-model monitor over an exhaustively enumerated space of custom-token match pairs; tiling invariant on every token list',
+                text='Recording custom span tokens registered through a real renderer return prescribed matches; for every placement of a match Y '
+                     'against a fixed match X (all start/end pairs, parse groups, delimiter widths, precedences, parse_inner flags, both '
+                     'registration orders; at top level and inside an enclosing token) the resulting token tree must tile the source exactly and '
+                     'be one of the outcomes the statement allows; random sets of regex-defined custom types check the tiling clauses.',
+                note='Where the statement is silent a set of outcomes is accepted (listed in the assumptions of the evidence file).'),
 }
